@@ -100,7 +100,28 @@ class Runner:
 
     # ------------------------------------------------------------------ adversary
 
-    def _action(self, env, key, i, mode, period):
+    def _greedy(self, env, state, key, cands):
+        """State-feedback adversary: among candidate actions take the one whose successor observation lies
+        closest to (or furthest beyond) the declared bounds — one-step look-ahead through env.transition.
+        On oscillators (MountainCar, Pendulum, Acrobot) this pumps energy and drives the state into its limits."""
+        osp = env.observation_space
+
+        def score(a):
+            nxt = env.transition(state, a, key=key)
+            o = env.observation(nxt, key=key)
+            o = jnp.concatenate([jnp.ravel(x).astype(float) for x in jax.tree.leaves(o)])
+            lo = jnp.ravel(osp.low) if isinstance(osp, Box) else jnp.full(o.shape, -jnp.inf)
+            hi = jnp.ravel(osp.high) if isinstance(osp, Box) else jnp.full(o.shape, jnp.inf)
+            bounded = jnp.isfinite(lo) & jnp.isfinite(hi)
+            mid, half = (lo + hi) / 2, (hi - lo) / 2
+            rel = jnp.where(bounded, jnp.abs(o - jnp.where(bounded, mid, 0.0)) / jnp.where(bounded, half, 1.0), jnp.abs(o) / (1.0 + jnp.abs(o)))
+            return jnp.sum(rel * rel)  # energy-like: pumping an oscillator increases it monotonically
+
+        scores = jnp.stack([score(a) for a in cands])
+        best = jnp.argmax(scores)
+        return jax.tree.map(lambda *xs: jnp.stack(xs)[best], *cands)
+
+    def _action(self, env, key, i, mode, period, state=None):
         sp = env.action_space
         samp = sp.sample(key=key)
         if isinstance(sp, Box):
@@ -109,12 +130,14 @@ class Runner:
             phase = (i // jnp.maximum(period, 1)) % 2
             alt = jnp.where(phase == 0, lo, hi)
             mixed = jnp.where(jr.bernoulli(key, 0.5, lo.shape), lo, hi)
-            return lax.switch(jnp.clip(mode, 0, 4), [lambda: samp, lambda: lo + 0 * samp, lambda: hi + 0 * samp, lambda: alt + 0 * samp, lambda: mixed + 0 * samp])
+            return lax.switch(jnp.clip(mode, 0, 5), [lambda: samp, lambda: lo + 0 * samp, lambda: hi + 0 * samp, lambda: alt + 0 * samp, lambda: mixed + 0 * samp,
+                                                     lambda: self._greedy(env, state, key, [lo + 0 * samp, hi + 0 * samp, mixed + 0 * samp])])
         if isinstance(sp, Discrete):
             n = sp.n
             phase = (i // jnp.maximum(period, 1)) % 2
-            return lax.switch(jnp.clip(mode, 0, 4), [lambda: samp, lambda: jnp.zeros_like(samp), lambda: jnp.full_like(samp, n - 1),
-                                                     lambda: jnp.where(phase == 0, 0, n - 1).astype(samp.dtype), lambda: samp])
+            return lax.switch(jnp.clip(mode, 0, 5), [lambda: samp, lambda: jnp.zeros_like(samp), lambda: jnp.full_like(samp, n - 1),
+                                                     lambda: jnp.where(phase == 0, 0, n - 1).astype(samp.dtype), lambda: samp,
+                                                     lambda: self._greedy(env, state, key, [jnp.full_like(samp, k) for k in range(n)])])
         return samp
 
     def _rollout(self, env, key, mode, period):
@@ -125,7 +148,7 @@ class Runner:
             state, = carry
             i, k = xs
             ka, ks, kc = jr.split(k, 3)
-            a = self._action(env, ka, i, mode, period)
+            a = self._action(env, ka, i, mode, period, state)
             new_state, obs, reward, term, trunc, info = env.step(state, a, key=ks)
             # functional components for the same state/action (built-in environments are deterministic given state and action)
             succ = env.transition(state, a, key=kc)
@@ -157,7 +180,7 @@ class Runner:
     # ------------------------------------------------------------------ plans
 
     def gen(self, rng, prop: str) -> dict:
-        return {"scenario": NAME, "cls": self.cls, "ops": [{"op": "roll", "key": rng.getrandbits(31), "mode": rng.choice([0, 0, 1, 2, 3, 3, 4]), "period": rng.choice([1, 2, 5, 20, 50])}
+        return {"scenario": NAME, "cls": self.cls, "ops": [{"op": "roll", "key": rng.getrandbits(31), "mode": rng.choice([0, 0, 1, 2, 3, 3, 4, 5, 5, 5]), "period": rng.choice([1, 2, 5, 20, 50])}
                                                              for _ in range(rng.randint(1, 2))], "faults": []}
 
     def shrink_candidates(self, plan: dict):
